@@ -93,10 +93,9 @@ Definition pool (e1 e2 : list T) : list (T * Z) :=
 Record scan := mkScan {
   sc_sum : T; sc_start : T; sc_end : T; sc_nties : T; sc_prev : T }.
 
-(* one iteration of the loop over the sorted pooled array *)
-Definition scan_step (eps : T) (ncol j : Z) (v : T) (idx : Z) (vnext : T) (s : scan) : scan :=
-  let diff := nabs N (nsub N v (sc_prev s)) in
-  let diffnext := nabs N (nsub N v vnext) in
+(* one iteration of the loop over the sorted pooled array, given the two
+   differences [diff] (to the previous value) and [diffnext] (to the next) *)
+Definition scan_core (eps : T) (ncol j : Z) (idx : Z) (diff diffnext v : T) (s : scan) : scan :=
   let first := (idx <? ncol)%Z in
   (* start a tie sequence *)
   let b1 := first && nleb N eps diff in
@@ -114,12 +113,27 @@ Definition scan_step (eps : T) (ncol j : Z) (v : T) (idx : Z) (vnext : T) (s : s
   let st3 := if b3 then nofZ N (-1) else st1 in
   mkScan sm3 st3 en2 nt2 v.
 
+(* repaired code: diff = j>0 ? fabs(value-valueprev) : eps;
+                  diffnext = j<2*ncol-1 ? fabs(value-valuenext) : eps *)
 Fixpoint scan_loop (eps : T) (ncol j : Z) (l : list (T * Z)) (s : scan) : scan :=
   match l with
   | [] => s
   | (v, idx) :: r =>
+      let diff := if (j =? 0)%Z then eps else nabs N (nsub N v (sc_prev s)) in
+      let diffnext := match r with (v', _) :: _ => nabs N (nsub N v v') | [] => eps end in
+      scan_loop eps ncol (j + 1) r (scan_core eps ncol j idx diff diffnext v s)
+  end.
+
+(* pinned code: the first element is compared with valueprev = first+1, the
+   last one with valuenext = value+1 *)
+Fixpoint scan_loop_sentinel (eps : T) (ncol j : Z) (l : list (T * Z)) (s : scan) : scan :=
+  match l with
+  | [] => s
+  | (v, idx) :: r =>
       let vnext := match r with (v', _) :: _ => v' | [] => nadd N v (n1 N) end in
-      scan_loop eps ncol (j + 1) r (scan_step eps ncol j v idx vnext s)
+      let diff := nabs N (nsub N v (sc_prev s)) in
+      let diffnext := nabs N (nsub N v vnext) in
+      scan_loop_sentinel eps ncol (j + 1) r (scan_core eps ncol j idx diff diffnext v s)
   end.
 
 Definition scan_init (sorted : list (T * Z)) : scan :=
@@ -132,12 +146,21 @@ Definition sumrank (eps : T) (e1 e2 : list T) : T :=
   let sorted := isort_by ens_le (pool e1 e2) in
   sc_sum (scan_loop eps ncol 0 sorted (scan_init sorted)).
 
-(* F = (sumrank-(ncold+1)*ncold/2)/ncold/ncold *)
-Definition pairF (eps : T) (e1 e2 : list T) : T :=
-  let ncold := nofZ N (Z.of_nat (length e1)) in
-  ndiv N (ndiv N (nsub N (sumrank eps e1 e2)
-                         (ndiv N (nmul N (nadd N ncold (n1 N)) ncold) (nofZ N 2)))
+Definition sumrank_sentinel (eps : T) (e1 e2 : list T) : T :=
+  let ncol := Z.of_nat (length e1) in
+  let sorted := isort_by ens_le (pool e1 e2) in
+  sc_sum (scan_loop_sentinel eps ncol 0 sorted (scan_init sorted)).
+
+(* (sumrank-(ncold+1)*ncold/2)/ncold/ncold *)
+Definition F_of_sumrank (ncol : nat) (sr : T) : T :=
+  let ncold := nofZ N (Z.of_nat ncol) in
+  ndiv N (ndiv N (nsub N sr (ndiv N (nmul N (nadd N ncold (n1 N)) ncold) (nofZ N 2)))
                  ncold) ncold.
+
+Definition pairF (eps : T) (e1 e2 : list T) : T :=
+  F_of_sumrank (length e1) (sumrank eps e1 e2).
+Definition pairF_sentinel (eps : T) (e1 e2 : list T) : T :=
+  F_of_sumrank (length e1) (sumrank_sentinel eps e1 e2).
 
 (* u = F<0.5-1e-8 ? 0. : F>0.5+1e-8 ? 1. : 0.5 *)
 Definition u_of_F (F : T) : T :=
